@@ -17,6 +17,7 @@ CONSTANTS
   AuthSetups <- AuthSetupsDef
   Forms <- FormsDef
   AltForm <- AltFormDef
+  Scales <- ScalesDef
   Variant = "fileorder"
 INVARIANT HashInputOk
 CHECK_DEADLOCK FALSE
